@@ -42,7 +42,7 @@ Fixpoint qs (s : stmt) (loc : list nat) : option (list nat) :=
       match qb b [] with Some [] => Some loc | _ => None end
   | SLoopUntil _ _ b _ _ cl =>
       match qb b [], qb cl [] with Some [], Some [] => Some loc | _, _ => None end
-  | SEpr _ _ | SFlush | SNewArray _ _ _ | SNewReg _ _ | SUAdd _ _ _ => None
+  | SEpr _ _ | SFlush | SNewArray _ _ _ | SNewReg _ _ | SUAdd _ _ _ | SFutAddX _ _ _ _ _ | SMeasFutX _ _ _ _ _ => None
   | _ => Some loc
   end
 with qb (b : block) (loc : list nat) : option (list nat) :=
@@ -86,7 +86,7 @@ Fixpoint wfs (s : stmt) : bool :=
   | SForeach _ _ _ b => wf_body b && bnoreg b && bwfs b
   | SLoopUntil _ mx b _ _ cl =>
       wf_body b && wf_body cl && bwfs b && bwfs cl && bnoreg cl && (Z.ltb 0 mx || bnoreg b) && emits b
-  | SEpr _ _ | SFlush | SNewReg _ _ | SUAdd _ _ _ => false
+  | SEpr _ _ | SFlush | SNewReg _ _ | SUAdd _ _ _ | SFutAddX _ _ _ _ _ | SMeasFutX _ _ _ _ _ => false
   | _ => true
   end
 with bwfs (b : block) : bool :=
@@ -113,3 +113,25 @@ Definition wf_prog (fd : bool) (p : block) (script : list Z) (e : est) : Prop :=
 (* agreement of a final controller state with the specification's result *)
 Definition agrees (s : mst) (e : est) : Prop :=
   rev (m_trace s) = rev (e_trace e) /\ (forall a, m_arr s a = alookup a (e_arr e)).
+
+(* ---- qubit budget: the largest number of simultaneously live qubit handles (= an upper bound of
+   the virtual ids the builder hands out: it always picks the lowest unused id) *)
+Fixpoint qpk (s : stmt) (n : nat) : nat * nat :=      (* (live after, peak) *)
+  match s with
+  | SNewQubit _ => (S n, S n)
+  | SFree _ | SMeasFut _ false _ _ | SMeasNew _ false _ | SMeasReg _ false _ => (Nat.pred n, n)
+  | SIf _ _ _ _ b | SLoop _ _ _ _ _ _ b | SForeach _ _ _ b | SEpr _ b => (n, snd (bqpk b n))
+  | SLoopUntil _ _ b _ _ cl => (n, Nat.max (snd (bqpk b n)) (snd (bqpk cl n)))
+  | _ => (n, n)
+  end
+with bqpk (b : block) (n : nat) : nat * nat :=
+  match b with
+  | BNil => (n, n)
+  | BCons s r => let (n1, p1) := qpk s n in let (n2, p2) := bqpk r n1 in (n2, Nat.max p1 p2)
+  end.
+Fixpoint qpeak_segs (segs : list block) (n : nat) : nat :=
+  match segs with
+  | [] => n
+  | s :: r => let (n1, p1) := bqpk s n in Nat.max p1 (qpeak_segs r n1)
+  end.
+Definition qpeak (segs : list block) : nat := qpeak_segs segs 0.
